@@ -700,6 +700,38 @@ def check_attach(idx: Index, rep: Report) -> None:
             r.ok(f.fq + ":owner")
 
 
+def check_iterators(idx: Index, rep: Report) -> None:
+    """The block / operation iterators read the link of a node *before* handing the node out (the next node is fixed while the
+    current one is still attached).  Loops such as `for block in region.blocks: block.drop_all_references()` clear the links
+    of the node they were just given; an iterator that follows the link of a node it handed out earlier stops after the
+    first element, and the remaining nodes keep their entries in the use lists."""
+    r = rep.rule("C01.R7", "the linked-list iterators follow the link of the node they are about to return, never of a node handed out by an earlier call", floor=3)
+    mi = idx.module(CORE)
+    LINKS = {"next_block", "_next_block", "prev_block", "_prev_block", "next_op", "_next_op", "prev_op", "_prev_op"}
+    n = 0
+    for cname, c in mi.classes.items():
+        if not re.fullmatch(r"_(Region|Block)\w*Iterator", cname):
+            continue
+        m = c.method("__next__")
+        if m is None:
+            continue
+        n += 1
+        fn = m.node
+        rets = [x for x in walk_local(fn) if isinstance(x, ast.Return) and x.value is not None]
+        returned = {unparse(x.value) for x in rets}
+        reads = [x for x in ast.walk(fn) if isinstance(x, ast.Attribute) and x.attr in LINKS and isinstance(x.ctx, ast.Load) and not (isinstance(x.value, ast.Name) and x.value.id == "self")]
+        inst = f"{c.fq}.__next__"
+        stale = [x for x in reads if unparse(x.value) not in returned]
+        if not reads:
+            raise AnalysisError(f"{c.fq}.__next__: no link is followed")
+        if stale:
+            r.fail(inst, Finding("C01.R7", m.fq, f"stale-link:{stale[0].attr}", f"`{unparse(stale[0])}` follows the link of `{unparse(stale[0].value)}`, which is not the node this call returns ({sorted(returned)}): the link of a node handed out earlier may have been cleared or re-pointed by the loop body (drop_all_references, erase, detach), so the iteration ends early or wanders into another list", f"{CORE}:{stale[0].lineno}"))
+        else:
+            r.ok(inst, f"{m.loc} the link is read off the node being returned, before it is handed out")
+    if n < 3:
+        raise AnalysisError(f"only {n} linked-list iterators found in {CORE}")
+
+
 def check_attach_last(idx: Index, rep: Report) -> None:
     """_attach_* sets child.parent: it is the commit point of an insertion.  Every rejection (explicit raise) of the
     insertion API must come before it, otherwise a failed call leaves a node that claims a parent but is in no list."""
@@ -735,6 +767,7 @@ def check(idx: Index, rep: Report, tier: str) -> str:
     rep.run(check_index_classes, idx, rep)
     rep.run(check_attach, idx, rep)
     rep.run(check_attach_last, idx, rep)
+    rep.run(check_iterators, idx, rep)
     return (
         "AST/CFG rules over the intrusive-list and use-list primitives of xdsl/ir/core.py and every writer of a structural "
         "field in the repository: link stores come in next/prev pairs on the same paths, Use objects are re-initialised "
